@@ -248,6 +248,11 @@ class Server:
                         c.down.append({"type": "message", "side": conn.side, "phase": m["phase"], "body": m["body"]})
         elif t == "close":
             mid = m.get("mailbox") or conn.sub
+            if mid is None:
+                # (docs/server-protocol.rst: `.mailbox` is optional but must match a previous open on this connection; the real server answers
+                #  "close without mailbox must follow open")
+                self.error(conn, "close without mailbox must follow open", m)
+                return
             if mid is not None:
                 mb = self.mailbox(mid)
                 mb["opened"].discard(conn.side)
